@@ -7,7 +7,14 @@ pub struct Rng(pub u64);
 
 impl Rng {
     pub fn new(seed: u64) -> Self {
-        Rng(seed.wrapping_mul(0x9E3779B97F4A7C15).wrapping_add(0x1234_5678_9ABC_DEF1))
+        // scramble the seed (splitmix64 finaliser) so that nearby seeds give unrelated streams:
+        // the generator itself advances by a constant, so without this seed s+d would replay seed s
+        // shifted by d draws
+        let mut z = seed.wrapping_add(0x1234_5678_9ABC_DEF1);
+        z = (z ^ (z >> 30)).wrapping_mul(0xBF58476D1CE4E5B9);
+        z = (z ^ (z >> 27)).wrapping_mul(0x94D049BB133111EB);
+        z ^= z >> 31;
+        Rng(z)
     }
     pub fn next(&mut self) -> u64 {
         self.0 = self.0.wrapping_add(0x9E3779B97F4A7C15);
